@@ -6,18 +6,29 @@ MANIFEST = dict(
     text='Theorems C11_* (lean/IprProps/C11.lean) prove for the model of get_qualified, over every history: an empty qualifier set is '
          'refused; every Qualified node has a non-empty set and an unqualified main variant; for every unqualified T and every non-empty list of '
          'non-empty sets, successive qualification ends at the node filed under (union, T), hence any two orders / groupings of the same union '
-         'give the same node as the single request. Tied to the code by a differential run of a real impl::Lexicon (all 7 sets, all ordered '
-         'splits into <= 3 / 5 successive requests over every kind of unqualified operand) against the model driver and a specification oracle.',
+         'give the same node as the single request; in a process with several Lexicons this holds in each of them, whatever the others and '
+         'any predecessor in the same storage were asked (C11_main_variant_unqualified_in_process, C11_process_state_admissible). Tied to the '
+         'code by a differential run of real impl::Lexicons against the model driver and a specification oracle: all 7 sets, all ordered splits '
+         'into <= 3 / 5 successive requests over every kind of unqualified operand; chains over ten main variants at once (built-ins, nodes of the '
+         'Lexicon, client-built nodes up to 256 GiB apart) advanced in a scrambled interleaving, all 49 ordered pairs of sets (disjoint, overlapping, '
+         'nested, equal); several Lexicons interleaved in one process; successors constructed in place of destroyed Lexicons whose first requests '
+         'qualify brand-new operands lying where the nodes of the predecessor lay; successive qualification during static initialisation.',
     note='Lean kernel; axioms propext/Classical.choice/Quot.sound; hand-written model tied by correspondence on generated histories only; '
-         'harness unifyprobe.cxx, ASan/UBSan, g++.',
+         'several-Lexicon, address-reuse and static-initialisation behaviour of the C++ is observed on the generated scripts, not proved; '
+         'harness unifyprobe.cxx (own operator new: malloc, or recycled size classes for in-place Lexicons), ASan/UBSan, g++.',
     technique='Lean 4 theorems (heap invariant + induction over qualification chains) + differential correspondence',
     ref='§4 C11')
 
 RULE = ('history 0: for one operand of each unqualified kind (built-in, pointer, reference, rvalue reference, array, product, sum, function, '
         'pointer to member, as-type, extended type, forall, class, enum, union, tor) the empty set, all 7 non-empty sets and every ordered split into '
-        '<= 3 (quick) / <= 5 (thorough, 6 kinds) successive get_qualified requests, with main_variant / qualifiers read back; then random '
-        'histories (40 % get_qualified over everything built so far, qualified operands included). A trace is one history; every answer is '
-        'compared with the specification oracle and with the Lean model')
+        '<= 3 (quick) / <= 5 (thorough, 6 kinds) successive get_qualified requests, with main_variant / qualifiers read back; then chains over ten '
+        'main variants at once (incl. client-built nodes placed up to 256 GiB apart) advanced in a scrambled interleaving: all 49 ordered pairs '
+        '(q, q\') and random triples, each followed by the one-step request for the union; then random histories (40 % get_qualified over '
+        'everything built so far, qualified operands included). Three Lexicons alive at a time, histories interleaved in chunks of 1..233 lines '
+        '(histories 0 and 2 also asked of a second Lexicon in lockstep); 5 / 10 pairs (short-lived Lexicon ending with re-qualifications, successor '
+        'constructed in place with recycled node storage that first qualifies more brand-new operands than the predecessor had nodes). '
+        'A trace is one history (one Lexicon incarnation); every answer is compared with the specification oracle of its own history and with '
+        'the Lean model run on the same interleaved script')
 
 
 def run(tier):
